@@ -376,31 +376,32 @@ type c20Config struct {
 }
 
 type c20World struct {
-	cfg      c20Config
-	clk      *c20Clock
-	client   *c20Client
-	queue    *c20Queue
-	ledger   *c20Ledger
-	store    *c20Store
-	unpub    *c20Unpub
-	writer   *batch.Writer
-	dh       *dochandler.DocumentHandler
-	restUpd  *restdochandler.UpdateHandler // one REST handler per node, kept for the whole run
-	restRes  *restdochandler.ResolveHandler
-	obs      *observer.Observer
-	obsCh    chan []txn.SidetreeTxn
-	reqs     map[int64]*c20Req
-	cur      *c20Req
-	prepared *c20Batch
-	batches  []*c20Batch
-	failed   []*c20Batch
-	noAnchor []*c20Batch // batches committed without an anchor write (every operation expired, F16)
-	internal []string    // violations seen inside the collaborators
-	expired  []int64
-	txnPver  map[uint64]uint64
-	inForce  bool
-	tb       *world.Table
-	keys     map[string]int64
+	cfg                 c20Config
+	clk                 *c20Clock
+	client              *c20Client
+	queue               *c20Queue
+	obsN, junkDelivered int
+	ledger              *c20Ledger
+	store               *c20Store
+	unpub               *c20Unpub
+	writer              *batch.Writer
+	dh                  *dochandler.DocumentHandler
+	restUpd             *restdochandler.UpdateHandler // one REST handler per node, kept for the whole run
+	restRes             *restdochandler.ResolveHandler
+	obs                 *observer.Observer
+	obsCh               chan []txn.SidetreeTxn
+	reqs                map[int64]*c20Req
+	cur                 *c20Req
+	prepared            *c20Batch
+	batches             []*c20Batch
+	failed              []*c20Batch
+	noAnchor            []*c20Batch // batches committed without an anchor write (every operation expired, F16)
+	internal            []string    // violations seen inside the collaborators
+	expired             []int64
+	txnPver             map[uint64]uint64
+	inForce             bool
+	tb                  *world.Table
+	keys                map[string]int64
 }
 
 func newC20World(cfg c20Config, tb *world.Table) *c20World {
@@ -490,6 +491,15 @@ func (w *c20World) observe() {
 	w.ledger.pending = nil
 	if len(ts) == 0 {
 		return
+	}
+	// every third notification starts with a transaction whose batch files cannot be read (another writer's garbage):
+	// it contributes nothing and the transactions behind it in the same notification are processed all the same
+	w.obsN++
+	if w.obsN%3 == 0 {
+		junk := txn.SidetreeTxn{Namespace: c20NS, AnchorString: "1.nowhere-to-be-found", TransactionTime: ts[0].TransactionTime,
+			TransactionNumber: 1 << 40, ProtocolVersion: ts[0].ProtocolVersion}
+		ts = append([]txn.SidetreeTxn{junk}, ts...)
+		w.junkDelivered++
 	}
 	w.obsCh <- ts
 	w.obsCh <- nil // accepted by the observer goroutine only after the previous slice has been processed
